@@ -151,8 +151,10 @@ class Repo:
                 st = normalize.normalise_module(tree, name)
                 if any(st.values()):
                     strip_inert(tree)
+                # first only the renames whose binding signature identifies the old name (a positional guess here could turn a new
+                # temporary into a "known" name before the temporaries pass has had its chance)
                 for _round in range(3):
-                    got = alpha.normalise(tree, name)
+                    got = alpha.normalise(tree, name, strict=True)
                     self.renamed.extend(got)
                     if not got:
                         break
